@@ -331,6 +331,41 @@ def check_f_setter(ctx, ck, rule='R-FRESH.setter', with_resets=True):
               'the frequency setter resets self.%s, an attribute nothing else reads or writes '
               '(stale results of the intended attribute survive a frequency change)' % a)
     ck.floor('resets in the f setter', len(resets), 2)
+    # anything else the model keeps that is computed from the frequency must be recomputed when the frequency
+    # changes: it is stored by the setter (or something it calls) or by a per-solution entry point, not by code
+    # that only runs when the model is built
+    if not with_resets:
+        return          # (C05 shares the wavelength clauses only)
+    frule = 'R-EFFECT.frequency-state'
+    ck.rule(frule, 'state derived from the frequency is stored where every frequency change / every solve recomputes it')
+    cls = m.classes['Mininec']
+    entries = [g_ for nm_, g_ in cls.methods.items() if nm_.startswith('compute')]
+    recomputed = prog.closure([st] + entries, edge_filter=lambda e: e.kind in ('call', 'getter', 'setter'))
+    fkeys = {'self.f', 'self._f'} | {'self.' + a_ for a_ in freq_attrs}
+    n_fs = 0
+    for g_ in sorted(cls.methods.values(), key=lambda x: x.qual):
+        if g_.qual == st.qual or g_.kind in ('property', 'cached_property'):
+            continue
+        gfl_ = ctx.flow(g_)
+        for s_ in walk_no_nested(g_.node):
+            if not (isinstance(s_, ast.Assign) and any(isinstance(t_, ast.Attribute) and isinstance(t_.value, ast.Name) and
+                                                       t_.value.id == 'self' for t_ in s_.targets)):
+                continue
+            r_ = gfl_.roots(s_.value, gfl_.node_id_of(s_))
+            dep = sorted(x_[1] for x_ in r_ if x_[0] == 'attr' and x_[1] in fkeys)
+            if not dep:
+                continue
+            n_fs += 1
+            for t_ in s_.targets:
+                if isinstance(t_, ast.Attribute) and isinstance(t_.value, ast.Name) and t_.value.id == 'self':
+                    okf = g_.qual in recomputed
+                    ck.ob(frule, '%s|self.%s' % (g_.qual, t_.attr), okf, g_.loc(s_),
+                          'self.%s (from %s) is stored by a function that runs at every frequency change / solve' % (t_.attr, dep)
+                          if okf else
+                          'self.%s is computed from %s in %s, which is reached neither from the frequency setter nor from a '
+                          'compute entry point: after a frequency change the value of the old frequency is used' % (
+                              t_.attr, dep, g_.qual))
+    ck.info('frequency_derived_stores', n_fs)
 
 
 
@@ -433,6 +468,12 @@ def run(ctx, ck):
         fl = ctx.flow(f)
         asg = assigns_to_attr(f, attr)
         ok = len(asg) >= 1
+        g_ = m.resolve_method(f.cls.name, attr.split('.', 1)[1]) if f.cls is not None else None
+        if not asg and g_ is not None and g_.kind == 'property':
+            # not stored at all: a plain property computes the value on demand from what this call stored
+            ck.ob('R-FRESH.assign-before-update', '%s|%s-always-assigned' % (q, attr), True, f.loc(),
+                  '%s is a (not cached) property: derived on every read' % attr)
+            continue
         # assigned on every path to the normal exit
         if ok:
             ids = {fl.node_id_of(a) for a in asg}
